@@ -205,32 +205,37 @@ func (c *c11Case) Run(ctx *core.Ctx) {
 	case "less":
 		// @import graphs of LESS files behind the LESS processor: cycles and long chains end in an
 		// error or in CSS, not in the end of the process
-		files := Files{"page.vuego": "<style type=\"text/css+less\">\n@import \"f0.less\";\n.page { color: red; }\n</style><p>x</p>"}
+		// (shape-css: the imported files are called *.css - the library takes them in like any other)
+		pos, ext := c.Pos, ".less"
+		if strings.HasSuffix(pos, "-css") {
+			pos, ext = strings.TrimSuffix(pos, "-css"), ".css"
+		}
+		files := Files{"page.vuego": "<style type=\"text/css+less\">\n@import \"f0" + ext + "\";\n.page { color: red; }\n</style><p>x</p>"}
 		var n int
 		fmt.Sscanf(c.Val, "%d", &n)
 		for i := 0; i < n; i++ {
 			next := ""
 			switch {
 			case i+1 < n:
-				next = fmt.Sprintf("@import \"f%d.less\";\n", i+1)
-			case c.Pos == "cycle":
-				next = "@import \"f0.less\";\n"
-			case c.Pos == "self":
-				next = fmt.Sprintf("@import \"f%d.less\";\n", i)
-			case c.Pos == "selftwice": // two imports of itself in every file: refused imports must not be retried 2^depth times
-				next = fmt.Sprintf("@import \"f%d.less\";\n@import \"f%d.less\";\n", i, i)
-			case c.Pos == "missing":
+				next = fmt.Sprintf("@import \"f%d%s\";\n", i+1, ext)
+			case pos == "cycle":
+				next = "@import \"f0" + ext + "\";\n"
+			case pos == "self":
+				next = fmt.Sprintf("@import \"f%d%s\";\n", i, ext)
+			case pos == "selftwice": // two imports of itself in every file: refused imports must not be retried 2^depth times
+				next = fmt.Sprintf("@import \"f%d%s\";\n@import \"f%d%s\";\n", i, ext, i, ext)
+			case pos == "missing":
 				next = "@import \"nowhere.less\";\n"
 			}
-			if c.Pos == "diamond" && i+2 < n {
-				next += fmt.Sprintf("@import \"f%d.less\";\n", i+2)
+			if pos == "diamond" && i+2 < n {
+				next += fmt.Sprintf("@import \"f%d%s\";\n", i+2, ext)
 			}
-			files[fmt.Sprintf("f%d.less", i)] = next + fmt.Sprintf(".c%d { top: %dpx; }\n", i, i)
+			files[fmt.Sprintf("f%d%s", i, ext)] = next + fmt.Sprintf(".c%d { top: %dpx; }\n", i, i)
 		}
 		ctx.Eval(2)
 		err1 := vuego.NewFS(files.FS(), vuego.WithLessProcessor()).Load("page.vuego").Render(bg, &buf)
 		err2 := vuego.NewFS(files.FS(), vuego.WithLessProcessor()).Load("page.vuego").Render(bg, &buf)
-		if (c.Pos == "cycle" || c.Pos == "self" || c.Pos == "selftwice") && (err1 == nil || err2 == nil) {
+		if (pos == "cycle" || pos == "self" || pos == "selftwice") && (err1 == nil || err2 == nil) {
 			ctx.Violation("no-error", "less/"+c.Pos, "import-cycle", fmt.Sprintf("an @import cycle over %d files rendered without error", n))
 		}
 		ctx.Outcome(fmt.Sprint(err1 != nil, err2 != nil))
@@ -535,7 +540,7 @@ func init() {
 			fmt.Sprintf("(1b) %d registered functions of every shape (fixed, variadic, context-taking, with error / comma-ok / three / no results, array, slice, map, pointer, struct, func and interface parameters, nil entries, values that are not functions) x %d call forms (call with 0..3 arguments, pipes with and without arguments, v-if, :attr, v-for) x the same values as argument; ", len(c11Funcs), len(c11CallForms)) +
 			"(1d) engines constructed with every ordered selection of <=3 options out of {WithFS, WithFS(nil), WithComponents, WithLessProcessor, WithFuncs, WithFuncs(nil), WithProcessor} through New, NewFS(fs) and NewFS(nil), followed by a string render, a file render and a render of a missing file; " +
 			"(1c) templates of 31 nesting depths from 1 to 600 (around 16, 32, 64, 128, 256, 512) as nested divs, divs with an inline sibling per level, spans, lists and a self-including component, through 4 entry points; " +
-			"(2) all include graphs over 3 files where each file includes <=2 targets in 6 modes (direct, v-if true/false, v-for, as plain slot content, as v-slot content), the includes wrapped in an element, standing bare as the first nodes of the file, or inside a <template> root: must return, with an error iff a cycle is reachable; (3) every token string up to the bound over a 23-token alphabet as template source (string / file / Vue.Render) and as front-matter. " +
+			"(2) all include graphs over 3 files where each file includes <=2 targets in 6 modes (direct, v-if true/false, v-for, as plain slot content, as v-slot content), the includes wrapped in an element, standing bare as the first nodes of the file, or inside a <template> root: must return, with an error iff a cycle is reachable; (3) every token string up to the bound over a 23-token alphabet as template source (string / file / Vue.Render) and as front-matter; (4) @import graphs behind the LESS processor - chains, cycles, files importing themselves once and twice, a missing file, diamonds - over 1..150 files called *.less and *.css: a cycle ends in an error, everything ends. " +
 			"oracle: the call returns - no panic (recovered per case), no fatal error or stack overflow (64 MiB stack cap, worker subprocess), no hang (CPU budget per case). non-trivial = all",
 		Bounds:      map[string]string{"quick": "graphs with <=1 edge per file in all modes plus 2 edges in {direct, vfor}; token strings of length <=3", "thorough": "graphs with <=1 edge per file in all 6 modes plus 2 edges in {direct, v-if, v-for, slot content}; token strings of length <=4"},
 		Assumptions: []string{"panics raised by the body of a user-registered function are the user's: the registered functions here never panic themselves", "cyclic maps/slices (not JSON-like) are not generated"},
@@ -546,7 +551,7 @@ func init() {
 					emit(&c11Case{Part: "types", Pos: p.Name, Val: w.Name})
 				}
 			}
-			for _, shape := range []string{"chain", "cycle", "self", "missing", "diamond", "selftwice"} {
+			for _, shape := range []string{"chain", "cycle", "self", "missing", "diamond", "selftwice", "chain-css", "cycle-css", "self-css", "selftwice-css"} {
 				for _, n := range []int{1, 2, 3, 5, 20, 99, 100, 101, 150} {
 					if shape == "diamond" && n > 20 {
 						continue // (the LESS library re-reads shared imports: 2^n work)
